@@ -214,6 +214,14 @@ impl SymbolTable {
     })
   }
 
+  /// The name of the type without its type arguments, and the type arguments in its suffix.
+  pub fn simple_type_name_and_suffix(&mut self, id: TypeNameId) -> (TypeNameId, Vec<Type>) {
+    let name = self.type_name_lookup_table.get(&id).unwrap();
+    let (module_reference, type_name, suffix) =
+      (name.module_reference, name.type_name, name.suffix.clone());
+    (self.create_simple_type_name(module_reference, type_name), suffix)
+  }
+
   /// If the given TypeNameId is a subtype (has a sub_type_tag), returns the parent TypeNameId.
   /// Otherwise returns None.
   pub fn get_parent_type_if_subtype(&self, id: TypeNameId) -> Option<TypeNameId> {
